@@ -4,14 +4,14 @@ use crate::support::*;
 use educe::Educe;
 use core::cmp::Ordering;
 #[derive(Educe)]
-#[repr(isize)]
-#[educe(PartialOrd, Eq, Ord, PartialEq)]
-pub enum T { C { #[educe(PartialOrd(rank("-1")))] _0: u8 } = 127, V1 = 3 }
+#[repr(i64)]
+#[educe(PartialOrd, PartialEq, Ord, Eq)]
+pub enum T { A(Option<u8>, char, #[educe(PartialOrd(rank = "-2"))] ::core::num::NonZeroU8) = 100, Some = 3 }
 
-pub fn values() -> Vec<T> { vec![T::C { _0: 0 }, T::C { _0: 100 }, T::C { _0: 200 }, T::V1] }
-pub fn show(x: &T) -> String { #[allow(unused_variables)] match x { T::C { _0: p0 } => format!("C({})", sv(p0)), T::V1 => format!("V1()") } }
-pub fn o_disc(x: &T) -> i128 { match x { T::C { _0: _ } => 127, T::V1 => 3 } }
-pub fn o_cmp(a: &T, b: &T) -> Ordering { match (a, b) { (T::C { _0: a0 }, T::C { _0: b0 }) => { let c = ::core::cmp::Ord::cmp(a0, b0); if c != Ordering::Equal { return c; } Ordering::Equal }, (T::V1, T::V1) => {  Ordering::Equal }, _ => o_disc(a).cmp(&o_disc(b)) } }
+pub fn values() -> Vec<T> { vec![T::A(None, 'a', ::core::num::NonZeroU8::new(1).unwrap()), T::A(None, 'a', ::core::num::NonZeroU8::new(200).unwrap()), T::A(None, 'z', ::core::num::NonZeroU8::new(1).unwrap()), T::A(None, 'z', ::core::num::NonZeroU8::new(200).unwrap()), T::A(Some(0), 'a', ::core::num::NonZeroU8::new(1).unwrap()), T::A(Some(0), 'a', ::core::num::NonZeroU8::new(200).unwrap()), T::A(Some(0), 'z', ::core::num::NonZeroU8::new(1).unwrap()), T::A(Some(0), 'z', ::core::num::NonZeroU8::new(200).unwrap()), T::A(Some(255), 'a', ::core::num::NonZeroU8::new(1).unwrap()), T::A(Some(255), 'a', ::core::num::NonZeroU8::new(200).unwrap()), T::A(Some(255), 'z', ::core::num::NonZeroU8::new(1).unwrap()), T::A(Some(255), 'z', ::core::num::NonZeroU8::new(200).unwrap()), T::Some] }
+pub fn show(x: &T) -> String { #[allow(unused_variables)] match x { T::A(p0, p1, p2) => format!("A({},{},{})", sv(p0), sv(p1), sv(p2)), T::Some => format!("Some()") } }
+pub fn o_disc(x: &T) -> i128 { match x { T::A(_, _, _) => 100, T::Some => 3 } }
+pub fn o_cmp(a: &T, b: &T) -> Ordering { match (a, b) { (T::A(a0, a1, a2), T::A(b0, b1, b2)) => { let c = ::core::cmp::Ord::cmp(a0, b0); if c != Ordering::Equal { return c; } let c = ::core::cmp::Ord::cmp(a1, b1); if c != Ordering::Equal { return c; } let c = ::core::cmp::Ord::cmp(a2, b2); if c != Ordering::Equal { return c; } Ordering::Equal }, (T::Some, T::Some) => {  Ordering::Equal }, _ => o_disc(a).cmp(&o_disc(b)) } }
 #[repr(C)] pub struct Wrap { pub pre: u8, pub x: T, pub post: [u8; 9] }
 pub fn wrap(i: usize, n: u8) -> Wrap { Wrap { pre: n, x: values().swap_remove(i), post: [n; 9] } }
 pub fn run(out: &mut Out) { let vs = values(); for (i, a) in vs.iter().enumerate() { for (j, b) in vs.iter().enumerate() { let e = o_cmp(a, b); let g = ::core::cmp::Ord::cmp(a, b); out.check(g == e, "ordlayout_19", "cmp", || format!("cmp({}, {}) = {:?} expected {:?}", show(a), show(b), g, e)); let g2 = ::core::cmp::PartialOrd::partial_cmp(a, b); out.check(g2 == Some(e), "ordlayout_19", "partial_is_some_cmp", || format!("partial_cmp({}, {}) = {:?} expected Some({:?})", show(a), show(b), g2, e)); for n in [0u8, 1, 0x7f, 0x80, 0xff] { let wa = wrap(i, n); let wb = wrap(j, !n); let g = ::core::cmp::Ord::cmp(&wa.x, &wb.x); let e = o_cmp(a, b); out.check(g == e, "ordlayout_19", "cmp_neighbours", || format!("cmp({}, {}) with neighbour bytes {} = {:?} expected {:?}", show(a), show(b), n, g, e)); } } } }
